@@ -68,7 +68,8 @@ def check(ctx: Ctx) -> str:
     for meth, namevar in (("getattr", "attribute"), ("getitem", "argument")):
         fi = repo.func(f"sandbox:SandboxedEnvironment.{meth}")
         ctx.check(fi.cls is not None and fi.cls.name == "SandboxedEnvironment", f"{meth}:override", "sandbox:SandboxedEnvironment", f"{meth} override", f"SandboxedEnvironment no longer overrides {meth}", fi.loc())
-        rets = astq.returns(fi.node)
+        fnode = fi.nnode  # normal form: `return a if c else b` is two guarded returns
+        rets = astq.returns(fnode)
         nval = 0
         # the local holding the format wrapper (whatever it is called)
         wraps = [a for a in ast.walk(fi.node) if isinstance(a, ast.Assign) and ast.unparse(a.value) == "self.wrap_str_format(value)" and isinstance(a.targets[0], ast.Name)]
@@ -77,7 +78,7 @@ def check(ctx: Ctx) -> str:
             txt = ast.unparse(r.value) if r.value is not None else "None"
             if txt == "value":
                 nval += 1
-                gs = astq.guard_atoms(fi.node, r)
+                gs = astq.guard_atoms(fnode, r)
                 ok = any(g.startswith("self.is_safe_attribute(obj, ") and g.endswith(", value)") and pol for g, pol in gs)
                 # ... and only after the format wrapper was ruled out for this value
                 ok = ok and (f"{wvar} is None", True) in gs
@@ -88,7 +89,7 @@ def check(ctx: Ctx) -> str:
             else:
                 ok = txt in (wvar, f"obj[{namevar}]", f"self.unsafe_undefined(obj, {namevar})", f"self.undefined(obj=obj, name={namevar})")
                 if txt == wvar:
-                    ok = (f"{wvar} is None", False) in astq.guard_atoms(fi.node, r)
+                    ok = (f"{wvar} is None", False) in astq.guard_atoms(fnode, r)
                 ctx.check(ok, f"{meth}:return {txt[:30]}", f"sandbox:SandboxedEnvironment.{meth}", f"return {txt[:40]}", f"unexpected return `{txt}` in the sandboxed accessor", fi.loc(r))
         ctx.check(nval == 1, f"{meth}:one value return", f"sandbox:SandboxedEnvironment.{meth}", "value returns", f"{nval} `return value` statements (expected exactly one, guarded)", fi.loc())
         # the attribute value comes from builtin getattr on obj and nothing else
@@ -127,7 +128,7 @@ def check(ctx: Ctx) -> str:
             if isinstance(n, ast.If) and f"isinstance(obj, {typ})" in ast.unparse(n.test):
                 hit = n
                 break
-        ok = hit is not None and need in ast.unparse(ast.Module(body=hit.body, type_ignores=[]))
+        ok = hit is not None and (need in ast.unparse(ast.Module(body=hit.body, type_ignores=[])) or (need != "return True" and need in ast.unparse(hit.test)))
         ctx.check(ok, f"internal:{typ}", "sandbox:is_internal_attribute", f"arm {typ}", f"is_internal_attribute no longer handles {typ} with {need}", iia.loc(hit) if hit else iia.loc())
     for const, members in (("UNSAFE_GENERATOR_ATTRIBUTES", {"gi_frame", "gi_code"}), ("UNSAFE_COROUTINE_ATTRIBUTES", {"cr_frame", "cr_code"}), ("UNSAFE_ASYNC_GENERATOR_ATTRIBUTES", {"ag_code", "ag_frame"})):
         got = repo.const(f"sandbox:{const}")
@@ -144,13 +145,20 @@ def check(ctx: Ctx) -> str:
         forms = {ast.unparse(a.value): astq.guard_atoms(loops[0], a) for a in hops}
         # every rebinding of obj inside the loop is one of the two sandboxed accessors, chosen by the hop kind
         ok = set(forms) == {f"self._env.getattr(obj, {keyv})", f"self._env.getitem(obj, {keyv})"} and (flag, True) in forms[f"self._env.getattr(obj, {keyv})"] and (flag, False) in forms[f"self._env.getitem(obj, {keyv})"]
+        if not ok and len(hops) == 1 and isinstance(hops[0].value, ast.Call) and [ast.unparse(a_) for a_ in hops[0].value.args] == ["obj", keyv]:
+            # the accessor is chosen first (a conditional expression, possibly named), then applied
+            fexpr = hops[0].value.func
+            if isinstance(fexpr, ast.Name):
+                src_ = [a for a in ast.walk(loops[0]) if isinstance(a, ast.Assign) and len(a.targets) == 1 and isinstance(a.targets[0], ast.Name) and a.targets[0].id == fexpr.id]
+                fexpr = src_[0].value if len(src_) == 1 else fexpr
+            if isinstance(fexpr, ast.IfExp):
+                ok = (ast.unparse(fexpr.test), ast.unparse(fexpr.body), ast.unparse(fexpr.orelse)) in ((flag, "self._env.getattr", "self._env.getitem"), (f"not {flag}", "self._env.getitem", "self._env.getattr"))
     ctx.check(ok, "get_field:hops", "sandbox:SandboxedFormatter.get_field", "field hops", "every attribute / item hop of a format field must go through self._env.getattr / getitem", gf.loc())
     bad = [c for c in astq.calls(gf.node) if astq.callee(c) in ("getattr", "super().get_field")]
     ctx.check(not bad, "get_field:no-builtin", "sandbox:SandboxedFormatter.get_field", "builtin access", "get_field uses builtin getattr / the unsandboxed base implementation", gf.loc())
+    hops_ok = ok  # (the hop rule above already ties attribute hops to getattr and index hops to getitem)
     for n in loops:
-        t_ = [x for x in n.body if isinstance(x, ast.If)]
-        ok = bool(t_) and ast.unparse(t_[0].test) == "is_attr" and "getattr" in ast.unparse(t_[0].body[0]) and "getitem" in ast.unparse(t_[0].orelse[0])
-        ctx.check(ok, "get_field:kind", "sandbox:SandboxedFormatter.get_field", "attr vs item", "attribute hops must use getattr and index hops getitem", gf.loc(n))
+        ctx.check(hops_ok, "get_field:kind", "sandbox:SandboxedFormatter.get_field", "attr vs item", "attribute hops must use getattr and index hops getitem", gf.loc(n))
     wf = repo.func("sandbox:SandboxedEnvironment.wrap_str_format")
     src = ast.unparse(wf.node)
     ctx.check("('format', 'format_map')" in src, "wrap:names", "sandbox:SandboxedEnvironment.wrap_str_format", "wrapped names", "both format and format_map must be wrapped", wf.loc())
